@@ -65,8 +65,16 @@ def generate(rng, n, tier, stats):
             status = apply_op(holder, op); ds = holder[0]
             hist.append({'op': op, 'status': status, 'obs': observe(ds), 'intended_reject': False})
             stats['history_op']['init'] += 1
+        elif rng.random() < 0.3:
+            # axes appended to the (still empty) dataset directly: no variable uses them yet
+            for d in rng.sample(DIMPOOL, rng.randint(1, 2)):
+                k_ = rng.choice(['i', 'f', 'O'])
+                op = ['append_axis', {'name': d, 'kind': k_, 'labels': rand_labels(rng, rng.randint(1, 3), k_, rng.choice(['inc', 'shuf']))}]
+                holder = [ds]; status = apply_op(holder, op); ds = holder[0]
+                hist.append({'op': op, 'status': status, 'obs': observe(ds), 'intended_reject': False})
+                stats['history_op']['append_axis'] += 1
         for _ in range(rng.randint(1, maxlen)):
-            kinds = ['set_new', 'set_new', 'set_replace', 'reject', 'reject', 'reject', 'del', 'rename_axis', 'var_rename_axis', 'set_dims',
+            kinds = ['set_new', 'set_new', 'set_replace', 'reject', 'reject', 'reject', 'del', 'rename_axis', 'var_rename_axis', 'set_dims', 'append_axis',
                      'rename_axes', 'set_label', 'set_axis', 'replace_axis', 'set_axis', 'replace_axis', 'rename_key', 'rename_keys_multi']
             # an axis is named by its name or by its POSITION IN THE DATASET (which is not its position in a variable that lacks an
             # earlier dimension or lists its dimensions in another order): positions other than 0 are preferred
@@ -86,6 +94,11 @@ def generate(rng, n, tier, stats):
                     mm = rng.choice(ex)
                     stats['reject_position'][('first' if mm == 0 else 'last' if mm == len(chosen) - 1 else 'middle')] += 1
                 op = ['set', key, new_array(rng, ds, chosen, mm)]
+            elif k == 'append_axis':
+                cand = [d for d in DIMPOOL if d not in dims] or DIMPOOL
+                d = rng.choice(cand) if rng.random() < 0.85 or not dims else rng.choice(dims)      # (an existing name is refused)
+                k_ = rng.choice(['i', 'f', 'O'])
+                op = ['append_axis', {'name': d, 'kind': k_, 'labels': rand_labels(rng, rng.randint(1, 3), k_, rng.choice(['inc', 'shuf']))}]
             elif k == 'del':
                 if not have: continue
                 op = ['del', rng.choice(have + (['nokey'] if rng.random() < 0.1 else []))]
@@ -132,7 +145,10 @@ def generate(rng, n, tier, stats):
                 kk = rng.choice(['i', 'f', 'O']); labs = rand_labels(rng, ax.size, kk, 'shuf') if ax.size <= 6 else None
                 if labs is None: continue
                 op = ['set_axis', dims[i] if byname(i) else i, labs, kk, next(fresh) if rng.random() < 0.4 else None]
-                if rng.random() < 0.35: op.append('copy')      # ds = ds.set_axis(..., inplace=False): the same, on a copy
+                loose = [d_ for d_ in ds.dims if not any(d_ in dict.__getitem__(ds, k_).dims for k_ in ds.keys())]
+                # ds = ds.set_axis(..., inplace=False): the same, on a copy (a copy is built from the variables: it does not carry
+                # the axes that were appended directly and that no variable uses, so the variant is kept for datasets without such axes)
+                if rng.random() < 0.35 and not loose: op.append('copy')
             elif k == 'replace_axis':
                 if not dims: continue
                 i = rng.randrange(len(dims)); ax = ds.axes[i]
@@ -193,6 +209,7 @@ def apply_op(holder, op):
         elif n == 'replace_axis': ds.axes[op[1]] = mk_axis(op[2]['name'], op[2]['labels'], op[2]['kind'])
         elif n == 'rename_key': ds.rename_keys({op[1]: op[2]})
         elif n == 'rename_keys_multi': ds.rename_keys(dict((a, b) for a, b in op[1]))
+        elif n == 'append_axis': ds.axes.append(mk_axis(op[1]['name'], op[1]['labels'], op[1]['kind']))
         return None
     except Exception as e:
         nm = type(e).__name__
@@ -228,6 +245,7 @@ def cq_dsop(op):
     if n == 'replace_axis': return '(DReplaceAxis %s %s)' % (cq_axref(op[1]), ops.cq_axis_in(op[2]))
     if n == 'rename_key': return '(DRenameKey %s %s)' % (cq_str(op[1]), cq_str(op[2]))
     if n == 'rename_keys_multi': return '(DRenameKeys %s)' % cq_list(['(%s, %s)' % (cq_str(a), cq_str(b)) for a, b in op[1]])
+    if n == 'append_axis': return '(DAppendAxis %s)' % ops.cq_axis_in(op[1])
     if n == 'init': return '(DInit %s)' % cq_list(['(%s, %s)' % (cq_str(k), cq_arr_in(a)) for k, a in op[1]])
     raise Unsupported(n)
 
@@ -249,8 +267,14 @@ def oracle(c, res):
         for v in o['vars']:
             for ax in v['arr']['axes']:
                 if ax['name'] not in used: used.append(ax['name'])
-        if sorted(used) != sorted(o['dims']):
-            return 'after step %d (%s): dataset dims %r are not exactly the dimensions used by its variables %r' % (k, st['op'][0], o['dims'], used)
+        # "the dataset's dimensions are exactly those used by its variables (plus axes appended to it directly that no variable
+        # has used yet)": every used dimension is a dataset dimension, and the number of unused ones grows by a direct append only
+        unused = [d for d in o['dims'] if d not in used]
+        prev_used = set(ax['name'] for v in prev['vars'] for ax in v['arr']['axes'])
+        prev_unused = [d for d in prev['dims'] if d not in prev_used]
+        grown = 1 if (st['op'][0] == 'append_axis' and r['status'] is None) else 0
+        if any(d not in o['dims'] for d in used) or len(unused) > len(prev_unused) + grown:
+            return 'after step %d (%s): dataset dims %r are not exactly the dimensions used by its variables %r (plus the axes appended directly)' % (k, st['op'][0], o['dims'], used)
         for v in o['vars']:
             for ax in v['arr']['axes']:
                 dax = o['axes'][o['dims'].index(ax['name'])]
